@@ -71,6 +71,9 @@ def report(pid, violations, max_lines=15):
 
 def write_evidence(pid, tier, seed, level, coverage, assumptions, wall, n_viol, extra=None):
     d = os.path.join(ROOT, "evidence")
+    if os.path.realpath(os.environ.get("VERIF_REPO", "/repo")) != "/repo":
+        # a scratch checkout (seeded change / mutant) is being examined: do not overwrite the evidence of /repo
+        d = os.path.join(ROOT, "out", "evidence_scratch")
     os.makedirs(d, exist_ok=True)
     ev = {"property_id": pid, "tier": tier, "seed": int(seed), "level": level,
           "coverage": coverage, "assumptions": assumptions, "wall_s": round(wall, 2),
